@@ -142,8 +142,7 @@ func (t *ClientTransport) send(packet *parser.Packet) error {
 func (t *ClientTransport) Discard() {
 	t.once.Do(func() {
 		if t.conn != nil {
-			// The close handshake waits for the peer (for seconds when it is gone): do not block.
-			go t.conn.Close(websocket.StatusNormalClosure, "")
+			t.conn.Close(websocket.StatusNormalClosure, "")
 		}
 	})
 }
@@ -164,8 +163,7 @@ func (t *ClientTransport) close(err error) {
 		defer t.callbacks.OnClose(t.Name(), err)
 
 		if t.conn != nil {
-			// The close handshake waits for the peer (for seconds when it is gone): do not block.
-			go t.conn.Close(websocket.StatusNormalClosure, "")
+			t.conn.Close(websocket.StatusNormalClosure, "")
 		}
 	})
 }
